@@ -12,6 +12,7 @@ import (
 	"crypto/rand"
 	"encoding/json"
 	"fmt"
+	"sort"
 	"strings"
 
 	"github.com/btcsuite/btcutil/base58"
@@ -231,7 +232,16 @@ func (v *VDR) Create(did *docdid.Doc,
 		return nil, err
 	}
 
+	// map iteration order is random: add the keys in a fixed order so that the same document always
+	// gives the same create request (and therefore the same DID)
+	keyIDs := make([]string, 0, len(pks))
 	for k := range pks {
+		keyIDs = append(keyIDs, k)
+	}
+
+	sort.Strings(keyIDs)
+
+	for _, k := range keyIDs {
 		createOpt = append(createOpt, create.WithPublicKey(pks[k].publicKey))
 	}
 
